@@ -229,7 +229,7 @@ class CobaRandom:
         sin  = math.sin
 
         while True:
-            R = sqrt(-2*log(next(self._randu)))
+            R = sqrt(-2*log(next(self._randu) or 2**-31)) #the uniform can be exactly 0 which we take for the middle of [0,2**-30)
             S = 2*pi*next(self._randu)
             yield R*cos(S)
             yield R*sin(S)
